@@ -364,4 +364,81 @@ theorem statCoherent_step (e e' : Entry) (op : Op) (hs : step e op = some e') (h
       all_goals exact statCoherent_invalid _ rfl
   · exact statCoherent_of_view e e' (step_untouched .statAll op e e' (by simpa using ht) hs) h
 
+/-! ### small arithmetic fact; iterating the two lists -/
+
+theorem u64ToI64_of_small (n : Int) (h0 : 0 ≤ n) (h1 : n ≤ 9223372036854775807) : u64ToI64 n.toNat = n := by
+  unfold u64ToI64 two64
+  have : (n.toNat : Int) = n := Int.toNat_of_nonneg h0
+  have h2 : n.toNat % 18446744073709551616 = n.toNat := Nat.mod_eq_of_lt (by omega)
+  rw [h2]
+  split <;> omega
+
+/-- calling `next` `n` times, collecting what it hands out -/
+def xattrDrain : Nat → Entry → List (Bytes × Bytes)
+  | 0, _ => []
+  | n + 1, e => match (xattrNext e).2 with
+    | none => []
+    | some x => x :: xattrDrain n (xattrNext e).1
+
+theorem xattrDrain_spec (n : Nat) (e : Entry) (hp : e.xattr_p ≤ e.xattrs.length) (hn : e.xattr_p ≤ n) :
+    xattrDrain n e = e.xattrs.drop (e.xattrs.length - e.xattr_p) := by
+  induction n generalizing e with
+  | zero =>
+    have : e.xattr_p = 0 := by omega
+    simp [xattrDrain, this]
+  | succ n ih =>
+    simp only [xattrDrain, xattrNext]
+    by_cases h0 : e.xattr_p = 0
+    · simp [h0]
+    · have hlt : e.xattrs.length - e.xattr_p < e.xattrs.length := by omega
+      have hb : (e.xattr_p == 0) = false := by simp [h0]
+      simp only [hb, cond_false, List.getElem?_eq_getElem hlt]
+      rw [ih _ (by simp only; omega) (by simp only; omega)]
+      simp only
+      have : e.xattrs.length - (e.xattr_p - 1) = (e.xattrs.length - e.xattr_p) + 1 := by omega
+      rw [this]
+      exact (List.drop_eq_getElem_cons hlt).symm
+
+
+/-- calling `sparse_next` `n` times, collecting what it hands out -/
+def sparseDrain : Nat → Entry → List (Int × Int)
+  | 0, _ => []
+  | n + 1, e => match (sparseNext e).2 with
+    | none => []
+    | some x => x :: sparseDrain n (sparseNext e).1
+
+theorem sparseDrain_none (n : Nat) (e : Entry) (h : e.sparse_p = none) : sparseDrain n e = [] := by
+  cases n with
+  | zero => rfl
+  | succ n => simp [sparseDrain, sparseNext, sparseNextV, h]
+
+theorem sparseDrain_spec (n : Nat) (e : Entry) (k : Nat) (hp : e.sparse_p = some k) (hk : k < e.sparse.length)
+    (hn : e.sparse.length - k ≤ n) : sparseDrain n e = e.sparse.drop k := by
+  induction n generalizing e k with
+  | zero => omega
+  | succ n ih =>
+    simp only [sparseDrain, sparseNext, sparseNextV, hp, List.getElem?_eq_getElem hk]
+    rw [List.drop_eq_getElem_cons hk]
+    congr 1
+    by_cases hlast : k + 1 < e.sparse.length
+    · exact ih _ (k + 1) (by simp [sparseNextP, hp, hlast]) (by simpa using hlast) (by simp only; omega)
+    · rw [sparseDrain_none _ _ (by simp [sparseNextP, hp, hlast])]
+      have : e.sparse.length ≤ k + 1 := by omega
+      simp [List.drop_eq_nil_of_le this]
+
+theorem sparse_iteration_aux (e : Entry) :
+    sparseDrain e.sparse.length (sparseReset e).1 = (sparseCount e).1.sparse := by
+  simp only [sparseReset, sparseCount_fst, size]
+  cases hw : sparseWhole (u64ToI64 e.aest_size) e.sparse
+  · simp only [cond_false]
+    cases hs : e.sparse with
+    | nil => exact sparseDrain_none _ _ (by simp [hs])
+    | cons a l =>
+      have := sparseDrain_spec (a :: l).length { e with sparse_p := bif e.sparse.isEmpty then none else some 0 } 0
+        (by simp [hs]) (by simp [hs]) (by simp [hs])
+      simp only [hs] at this
+      simpa [hs] using this
+  · simp only [cond_true]
+    exact sparseDrain_none _ _ rfl
+
 end LA.Entry
